@@ -202,8 +202,10 @@ func (r *repository) removeRulesFrom(tree *radixtree.Tree[rule.Route], tbdRules 
 		for _, route := range rul.Routes() {
 			if err := tree.Delete(
 				route.Path(),
-				radixtree.ValueMatcherFunc[rule.Route](func(route rule.Route) bool {
-					return route.Rule().SameAs(rul)
+				// the very route: a rule may list a path twice, and every
+				// listed path is removed by its own Delete
+				radixtree.ValueMatcherFunc[rule.Route](func(existing rule.Route) bool {
+					return existing == route
 				}),
 			); err != nil {
 				return errorchain.NewWithMessagef(heimdall.ErrInternal, "failed deleting rule ID='%s'", rul.ID()).
